@@ -1222,11 +1222,20 @@ func spaceC(quick bool, out chan<- job) {
 	}
 }
 
+// gcTuning: tiny live heap, very high allocation rate (every BuildGraph is 512 maps, every FindRevdeps a 1000-slot map):
+// collect by footprint instead of by growth (measured: about 40% less CPU than the default or a ballast).
+func gcTuning() {
+	if os.Getenv("VERIF_NO_GC_TUNING") != "" {
+		return
+	}
+	debug.SetGCPercent(-1)
+	debug.SetMemoryLimit(512 << 20)
+}
+
 func main() {
 	r := lib.Start("C24", "exploration")
 	lib.Quiet()
-	debug.SetGCPercent(-1)
-	debug.SetMemoryLimit(512 << 20) // tiny live heap, very high allocation rate inside FindRevdeps
+	gcTuning()
 	if pf := os.Getenv("VERIF_CPUPROFILE"); pf != "" {
 		f, _ := os.Create(pf)
 		pprof.StartCPUProfile(f)
